@@ -273,5 +273,4 @@ pub mod book {
     pub use crate::orderbook::verif_proofs::*;
 }
 
-#[cfg(kani)]
 pub use crate::market::verif_proofs::market_log;
